@@ -21,18 +21,22 @@ def _run(cmd, src, timeout=120):
 
 def gcc_accepts(src, std='c11', pedantic=True, extra=()):
     """(accepted, stderr) for gcc -fsyntax-only."""
-    cmd = ['gcc', '-std=' + std, '-fsyntax-only', '-w', '-x', 'c', '-']
+    cmd = ['gcc', '-std=' + std, '-fsyntax-only', '-x', 'c', '-']
     if pedantic:
-        cmd.insert(2, '-pedantic-errors')
+        cmd.insert(2, '-pedantic-errors')  # note: no -w, it would also silence the pedantic errors
+    else:
+        cmd.insert(2, '-w')
     cmd[1:1] = list(extra)
     rc, _, err = _run(cmd, src)
     return rc == 0, err
 
 
 def clang_accepts(src, target='x86_64-sysv', std='c11', pedantic=True, extra=()):
-    cmd = ['clang', '--target=' + TRIPLE[target], '-std=' + std, '-fsyntax-only', '-w', '-x', 'c', '-']
+    cmd = ['clang', '--target=' + TRIPLE[target], '-std=' + std, '-fsyntax-only', '-x', 'c', '-']
     if pedantic:
         cmd.insert(3, '-pedantic-errors')
+    else:
+        cmd.insert(3, '-w')
     cmd[1:1] = list(extra)
     rc, _, err = _run(cmd, src)
     return rc == 0, err
